@@ -7,12 +7,16 @@
 (*     - nothing is counted before a window is known                       *)
 (*     - otherwise pend + n is compared with W: reaching it emits one      *)
 (*       Acknowledgement carrying exactly pend + n and resets pend         *)
+(*     - over: the count itself exceeds 32 bits; the window is then        *)
+(*       certainly reached and an acknowledgement is due, but its 32-bit   *)
+(*       field cannot carry the count: the reported value is not judged    *)
 (***************************************************************************)
 EXTENDS U32, Sequences
 
 AckStep(win, pend, n) ==
-    IF win = <<>> THEN [ack |-> <<>>, pend |-> pend]
-    ELSE LET p == Add(pend, n) IN
-         IF Le(win[1], p) THEN [ack |-> <<p>>, pend |-> Zero]
-         ELSE [ack |-> <<>>, pend |-> p]
+    IF win = <<>> THEN [ack |-> <<>>, pend |-> pend, over |-> FALSE]
+    ELSE LET p    == Add(pend, n)
+             over == Lt(p, pend)      \* pend + n does not fit in 32 bits (only possible with a window close to 2^32)
+         IN  IF over \/ Le(win[1], p) THEN [ack |-> <<p>>, pend |-> Zero, over |-> over]
+             ELSE [ack |-> <<>>, pend |-> p, over |-> FALSE]
 =============================================================================
